@@ -21,7 +21,7 @@ from mc.core import proc
 
 PROPERTY = "C20"
 LEVEL = "model_checking"
-RULE = ("states = distinct budget trees reachable from 13 initial trees by <= D commands (D=3 quick, 6 thorough or fixpoint); transitions = "
+RULE = ("states = distinct budget trees reachable from 15 initial trees by <= D commands (D=3 quick, 6 thorough or fixpoint); transitions = "
         "(tree, command) pairs over 13 commands, each executed by the real CLI in a forked process; invariant per transition = frame condition "
         "of the property for that command class (read-only / init / explicit migration)")
 ASSUMPTIONS = ["commands run non-interactively: stdin=/dev/null, stdout/stderr not a tty",
@@ -65,6 +65,12 @@ INITIAL = {
     # settings name a views file that does not exist (read-only commands must not create it)
     "old-views-dangling": _old({"config/settings.yaml": SETTINGS_FULL, "config/merchants.rules": RULES, "data/s.csv": STMT}),
     "new-views-dangling": _new({"config/settings.yaml": SETTINGS_FULL, "config/merchants.rules": RULES, "data/s.csv": STMT}),
+    # settings name the user's own rules file while a legacy CSV with rules lies next to it (init must not re-point the entry)
+    "custom-rules-file-and-legacy-csv": _old({"config/settings.yaml": SETTINGS_FULL.replace("config/merchants.rules", "config/my.rules"), "config/my.rules": RULES,
+                                              "config/views.rules": VIEWS, "config/merchant_categories.csv": CSV_RULES, "data/s.csv": STMT}),
+    # files init knows how to create already exist with the user's own content (.gitignore without data/ and output/ entries)
+    "own-gitignore": _old({"config/settings.yaml": SETTINGS_FULL, "config/merchants.rules": RULES, "config/views.rules": VIEWS, "data/s.csv": STMT,
+                           ".gitignore": "# mine\n*.bak\nnotes/\n", "config/.gitignore": "secret.yaml\n"}),
     # earlier backups with gaps in their numbering (a new backup must take a name that is free)
     "legacy-csv-bak1-only": _old({"config/settings.yaml": SETTINGS_BARE, "config/merchant_categories.csv": CSV_RULES,
                                   "config/merchant_categories.csv.bak.1": OLD_BAK, "data/s.csv": STMT}),
